@@ -77,8 +77,13 @@ fn class_of(a: &MV, b: &MV) -> String {
 }
 
 fn judge(ctx: &mut Ctx, a: &MV, b: &MV) {
+    judge_with(ctx, a, b, a.to_crate(), b.to_crate())
+}
+
+/// the same judgement on crate values obtained some other way (tuple conversions, parsing)
+/// than through the fields; `a` / `b` are the versions those values are meant to be
+fn judge_with(ctx: &mut Ctx, a: &MV, b: &MV, ca: Version, cb: Version) {
     ctx.begin(|| format!("C16 diff {} {}", a.text(), b.text()));
-    let (ca, cb) = (a.to_crate(), b.to_crate());
     let want = model_diff(a, b);
     let cls = class_of(a, b);
     ctx.eval(1);
@@ -177,6 +182,34 @@ pub fn run(ctx: &mut Ctx) {
     // versions obtained from text (both entry points), spelled in ways that denote the same
     // identifiers differently: zero-padded numeric tags, `v` prefix, build metadata. The model
     // works on the denoted identifiers; the crate sees only the text.
+    // versions built through the tuple conversions (every integer type, 3- and 4-tuples)
+    ctx.stratum("TC-tuple-built-pairs", true);
+    {
+        let vals: [u64; 4] = [0, 1, 2, 7];
+        let mut made: Vec<(MV, Vec<Version>)> = vec![];
+        for &ma in &vals[..3] {
+            for &mi in &vals[..2] {
+                for &pa in &vals {
+                    let m3 = MV::new(ma, mi, pa);
+                    made.push((m3, vec![Version::from((ma as u8, mi as u8, pa as u8)), Version::from((ma as i8, mi as i8, pa as i8)), Version::from((ma as u16, mi as u16, pa as u16)), Version::from((ma as i16, mi as i16, pa as i16)), Version::from((ma as u32, mi as u32, pa as u32)), Version::from((ma as i32, mi as i32, pa as i32)), Version::from((ma, mi, pa)), Version::from((ma as i64, mi as i64, pa as i64)), Version::from((ma as usize, mi as usize, pa as usize)), Version::from((ma as isize, mi as isize, pa as isize))]));
+                    for &d in &vals {
+                        let m4 = MV::new(ma, mi, pa).with_pre(&[&d.to_string()]);
+                        made.push((m4, vec![Version::from((ma as u8, mi as u8, pa as u8, d as u8)), Version::from((ma as i8, mi as i8, pa as i8, d as i8)), Version::from((ma as u16, mi as u16, pa as u16, d as u16)), Version::from((ma as i16, mi as i16, pa as i16, d as i16)), Version::from((ma as u32, mi as u32, pa as u32, d as u32)), Version::from((ma as i32, mi as i32, pa as i32, d as i32)), Version::from((ma, mi, pa, d)), Version::from((ma as i64, mi as i64, pa as i64, d as i64)), Version::from((ma as usize, mi as usize, pa as usize, d as usize)), Version::from((ma as isize, mi as isize, pa as isize, d as isize))]));
+                    }
+                }
+            }
+        }
+        for (i, (a, cas)) in made.iter().enumerate() {
+            if !ctx.take() {
+                continue;
+            }
+            for (j, (b, cbs)) in made.iter().enumerate() {
+                // rotate through the ten integer types on both sides
+                let (ca, cb) = (cas[(i + j) % cas.len()].clone(), cbs[(i * 3 + j) % cbs.len()].clone());
+                judge_with(ctx, a, b, ca, cb);
+            }
+        }
+    }
     ctx.stratum("P-parsed-pairs-and-spellings", false);
     let np = ctx.tier.n(20_000, 2_000_000);
     for i in 0..np {
